@@ -629,7 +629,7 @@ class ProgramEnv:
 
     def compile(self, opts: dict, algod=None):
         """Returns (approval_teal, clear_teal|None)."""
-        mode = pt.Mode.Application if self.spec.get("mode", "app") == "app" else pt.Mode.Signature
+        mode = pt.Mode.Application if opts.get("mode", self.spec.get("mode", "app")) == "app" else pt.Mode.Signature
         optimize = self.optimize(opts.get("opt"))
         version = opts["version"]
         ac = bool(opts.get("ac"))
